@@ -258,7 +258,10 @@ def translate(repo):
     res = {}
     bl = _cls(mod, "BiLinearForm", FORMS)
     ll = _cls(mod, "LinearForm", FORMS)
-    _match(_fn(bl, "Integrate_e", FORMS), [("ok", REF_BIL_INTEGRATE)], FORMS + ":BiLinearForm.Integrate_e", mod, bl)
+    res["bil_store"] = _match(_fn(bl, "Integrate_e", FORMS),
+                              [("plain", REF_BIL_INTEGRATE),
+                               ("reshape", REF_BIL_INTEGRATE.replace("data[:, i, j] = values_e", "data[:, i, j] = np.asarray(values_e).reshape(-1)"))],
+                              FORMS + ":BiLinearForm.Integrate_e", mod, bl)
     res["lin_store"] = _match(_fn(ll, "Integrate_e", FORMS), REF_LIN_INTEGRATE, FORMS + ":LinearForm.Integrate_e", mod, ll)
     res["bil_rows"], res["bil_cols"] = _match(_fn(bl, "Assemble", FORMS), _asm_refs("(Ndof, Ndof)"), FORMS + ":BiLinearForm.Assemble", mod, bl)
     res["lin_rows"], res["lin_cols"] = _match(_fn(ll, "Assemble", FORMS), _asm_refs("(Ndof, 1)"), FORMS + ":LinearForm.Assemble", mod, ll)
